@@ -285,6 +285,16 @@ def _scan_rules(repo: Repo, L: Ledger):
         if not same_list:
             ok_pairs, why = False, "callback arguments are not two elements of the same list"
             break
+        from ..util import ancestors as _anc
+
+        encl = [a for a in _anc(node) if isinstance(a, ast.For | ast.While)]
+        if len(encl) != 2:
+            ok_pairs, why = False, f"the pair loops are nested inside {len(encl) - 2} further loop(s): only pairs within one group are compared, pairs across groups are never examined"
+            break
+        lst = norm(node.args[0].value) if isinstance(node.args[0], ast.Subscript) else None
+        if listname is not None and lst != listname:
+            ok_pairs, why = False, f"pairs are drawn from '{lst}', not from the flat list '{listname}' of all fragments"
+            break
         if len(ranges) != 2:
             ok_pairs, why = False, f"{len(ranges)} enclosing range loops (expected 2)"
             break
